@@ -61,6 +61,8 @@ pub enum SizeHint {
     Exact,
     /// a lower bound (chunked / streaming producer): half of what actually remains
     Lower,
+    /// an upper bound (a producer that filters entries out after counting them): three too many
+    Upper,
 }
 
 impl SizeHint {
@@ -69,6 +71,7 @@ impl SizeHint {
             SizeHint::None => None,
             SizeHint::Exact => Some(remaining),
             SizeHint::Lower => Some(remaining / 2),
+            SizeHint::Upper => Some(remaining + 3),
         }
     }
 }
@@ -197,7 +200,14 @@ pub enum SimError {
 impl fmt::Display for SimError {
     fn fmt(&self, f: &mut fmt::Formatter) -> fmt::Result {
         match self {
-            SimError::Injected(k) => write!(f, "injected fault at step {}", k),
+            // the text varies with the step so that code which inspects messages (it should not) sees
+            // the phrasings real formats use
+            SimError::Injected(k) => write!(
+                f,
+                "{} (injected fault at step {})",
+                ["I/O error", "EOF while parsing an object", "unexpected end of file", "broken pipe", "connection reset", "timed out", "invalid data", "expected value"][*k as usize % 8],
+                k
+            ),
             SimError::Medium(m) => write!(f, "medium: {}", m),
             SimError::Custom(s) => write!(f, "{}", s),
         }
